@@ -37,6 +37,40 @@ fn verif_replay() {
         }
         return;
     }
+    if case["driver"].as_str() == Some("connect_line") {
+        // the CONNECT request the connector writes for a destination, read by the real request reader of the next hop
+        let text = a["target"].as_str().unwrap_or("example.org:443").to_string();
+        let udp = a["udp"].as_bool().unwrap_or(false);
+        let rt = tokio::runtime::Builder::new_current_thread().enable_all().build().unwrap();
+        let out = rt.block_on(async move {
+            use crate::common::http::HttpRequest;
+            let want: crate::context::TargetAddress = match text.parse() { Ok(t) => t, Err(_) => return serde_json::json!({"panicked": false, "bad_case": true}) };
+            let (up, ours) = tokio::io::duplex(65536);
+            let state: Arc<CtxState> = Default::default();
+            let ctx = state.create_context("l".into(), "127.0.0.1:1".parse().unwrap()).await;
+            ctx.write().await.set_target(want.clone()).set_feature(if udp { Feature::UdpForward } else { Feature::TcpForward });
+            let server = make_buffered_stream(ours);
+            let conn = tokio::spawn(async move {
+                let _ = h11c_connect(server, ctx, "127.0.0.1:2".parse().unwrap(), "127.0.0.1:3".parse().unwrap(), "inline",
+                                     |_id: u32| async { panic!("frame_fn not expected for inline channel") }).await;
+            });
+            let mut up = tokio::io::BufReader::new(up);
+            let rq = tokio::time::timeout(std::time::Duration::from_millis(800), HttpRequest::read_from(&mut up)).await;
+            conn.abort();
+            match rq {
+                Ok(Ok(r)) => {
+                    let got: Result<crate::context::TargetAddress, _> = r.resource.parse();
+                    let host = r.header("Host", "").to_string();
+                    let hgot: Result<crate::context::TargetAddress, _> = host.parse();
+                    serde_json::json!({"panicked": false, "request_read": true, "resource": r.resource, "host": host,
+                                       "target_parses_back": got.map(|g| g == want).unwrap_or(false), "host_parses_back": hgot.map(|g| g == want).unwrap_or(false)})
+                }
+                other => serde_json::json!({"panicked": false, "request_read": false, "detail": format!("{:?}", other.map(|x| x.map(|_| ()).map_err(|e| e.to_string())))}),
+            }
+        });
+        println!("VERIF-OUTCOME {}", out);
+        return;
+    }
     if case["driver"].as_str() == Some("handover") {
         // the HTTP head and one whole frame arrive in ONE segment; the inline frame channel must deliver that frame
         let side = a["side"].as_str().unwrap_or("connect").to_string();
